@@ -11,11 +11,19 @@
     iso.render <df> <tf> <of> <sep> [year,a,b,hh,mm,ss,neg,oh,om] [frac digits]
         -> ok <hex> <lax-wf> <strict-wf> <denotation>
 
+    isogen.parse <sep|-> <hex> [b]   the TRANSLATED isoparse (Generated/IsoKernels.lean) behind the hand-modelled
+                                     constructor check and ASCII gate
+    isogen.tz <0|1> <hex>            translated _parse_tzstr
+    isogen.digits <width> <hex>      translated _parse_digits
+    isogen.idate <hex>               translated _parse_isodate  -> ok y m d pos
+    isogen.itime <hex>               translated _parse_isotime  -> ok h m s us tz   (raw components)
+
   `sep` is the hex of the UTF-8 of the `sep` argument (`.` = empty string), `-` = None.
 -/
 import DateutilVerif.Base.Wire
 import DateutilVerif.Model.IsoParser
 import DateutilVerif.Spec.IsoForms
+import DateutilVerif.Generated.IsoKernels
 
 namespace Ops.IsoParser
 open Wire
@@ -57,8 +65,35 @@ def mkFields (year a b hh mm ss neg oh om : Int) (fr : List Int) : IsoSpec.Field
     ss := ss.toNat, frac := fr.map Int.toNat, neg := decide (neg ≠ 0), oh := oh.toNat,
     om := om.toNat }
 
+def showComp : BytesPy.Comp → String
+  | .int v => toString v
+  | .none => "-"
+  | .tz o => (IsoT.Off.wire (some o)).replace " " ":"
+
+def showComps (l : List BytesPy.Comp) : String := " ".intercalate (l.map showComp)
+
+/-- the translated `isoparse` behind the hand-modelled `__init__` and `_takes_ascii` -/
+def genIsoparseFull (sep : Option (List Nat)) (isStr : Bool) (s : List Nat) : Py.R IsoT.Value := do
+  let sp ← Iso.mkSep sep
+  Iso.asciiGate isStr s (Gen.isoparse (sp.map fun c => [c]))
+
 def handle (op : String) (args : List String) : Option String :=
   match op, args with
+  | "isogen.parse", sep :: hex :: rest => do
+      let sp ← sep? sep; let s ← bytes? hex; let isStr ← isStr? rest
+      some (Py.showR IsoT.Value.wire (genIsoparseFull sp isStr s))
+  | "isogen.tz", [z, hex] => do
+      let s ← bytes? hex
+      some (Py.showR showOff (Gen.parseTzstr s (z != "0")))
+  | "isogen.digits", [w, hex] => do
+      let s ← bytes? hex; let w ← parseInt? w
+      some (Py.showR toString (Gen.parseDigits s w))
+  | "isogen.idate", [hex] => do
+      let s ← bytes? hex
+      some (Py.showR (fun (p : List BytesPy.Comp × Int) => showComps p.1 ++ s!" {p.2}") (Gen.parseIsodate s))
+  | "isogen.itime", [hex] => do
+      let s ← bytes? hex
+      some (Py.showR showComps (Gen.parseIsotime s))
   | "iso.parse", sep :: hex :: rest => do
       let sp ← sep? sep; let s ← bytes? hex; let isStr ← isStr? rest
       some (Py.showR IsoT.Value.wire (Iso.isoparseFull sp isStr s))
